@@ -499,6 +499,39 @@ def kind_twins(ctx, rng):
                    hdr_idx=root, hdr_expect='rej')
 
 
+def stored_hash_forgery(ctx, rng, pn, pinfos, R, proot, h):
+    """the proof arrives as a BAG OF CELLS whose records carry stored hashes/depths (d1 bit 16): one unpruned cell's data is changed
+    while every record keeps the hashes of the GENUINE tree - a reader that adopts stored hashes instead of hashing would accept"""
+    from pytoniq_core.boc.cell import Cell
+    from . import C05
+    cand = [j for j in range(R) if pinfos[j] is not None and pinfos[j].valid and pn[j][0] == G.ORD and pn[j][1]]
+    if not cand:
+        return
+    j = rng.choice(cand)
+    kind, bits, refs = pn[j]
+    mut = list(pn)
+    mut[j] = (kind, flip_bit(bits, rng.randrange(len(bits))), refs)
+    members = sorted(C05.reachable(mut, [R]), reverse=True)
+    if j not in members:
+        return
+    recs = C05.listing(mut, pinfos, members)            # data of the forgery, stored hashes of the genuine proof
+    n = len(recs)
+    size = 1 if n < 256 else 2
+    tot = sum(len(C05.enc_record(r, size, True)) for r in recs)
+    fr = dict(magic='g', size=size, off=max(1, (tot.bit_length() + 7) // 8), idx=False, crc=rng.random() < 0.5, cache=False, store=[True] * n, cflags=[])
+    data = C05.py_encode(recs, [0], fr)
+    ctx.case(('stored-hash-forgery', data))
+    ctx.count('sound:stored-hashes')
+    try:
+        cell = Cell.one_from_boc(data)
+    except Exception:
+        return                                          # refusing the bag is fine
+    got = lib_verdict_proof(cell, h)
+    if got != 'rej':
+        ctx.fail('sound:stored-hashes', 'a proof delivered as a bag whose records store the genuine hashes while an unpruned cell\'s data was changed is accepted',
+                 {'op': 'proof-boc', 'boc': data.hex(), 'hash': h.hex(), 'changed_node': j, 'dag': jnodes(mut)}, got, 'rej')
+
+
 def generic_streams(ctx, rng):
     shaped_trees(ctx, rng)
     n_trees = ctx.n(140, 1400)
@@ -535,6 +568,7 @@ def generic_streams(ctx, rng):
         mutate_refs(ctx, rng, pn, pinfos, R, proot, h, ctx.n(4, 12))
         forged_state_hash(ctx, rng, pn, pinfos, R, proot, h)
         kind_flips(ctx, rng, pn, pinfos, R, proot, h, ctx.n(3, 8))
+        stored_hash_forgery(ctx, rng, pn, pinfos, R, proot, h)
         truncated_root(ctx, pn, R, proot, h)
         if t % 7 == 0:
             kind_twins(ctx, rng)
@@ -1374,6 +1408,16 @@ def run(ctx):
 
 def replay(ctx, payload):
     inp = payload.get('input') or {}
+    if inp.get('op') == 'proof-boc':
+        from pytoniq_core.boc.cell import Cell
+        ctx.case(('stored-hash-forgery', inp['boc']))
+        try:
+            got = lib_verdict_proof(Cell.one_from_boc(bytes.fromhex(inp['boc'])), bytes.fromhex(inp['hash']))
+        except Exception:
+            got = 'rej'
+        if got != 'rej':
+            ctx.fail('sound:stored-hashes', 'forged proof bag with stored genuine hashes accepted (replay)', inp, got, 'rej')
+        return
     if inp.get('op') == 'proof':
         nodes = unj(inp['dag'])
         run_proof_case(ctx, nodes, inp['idx'], bytes.fromhex(inp['hash']), inp.get('expect'), inp.get('key', 'replay'), inp.get('what', 'replay'),
